@@ -16,6 +16,7 @@
 (* mode on | ifFalse | varTrue | varFalse, label, typed (explicit "on T"),        *)
 (* tc = type condition shared by everything inside it.                          *)
 (* in[x] = fragment that directly contains node x (0 = plain).                  *)
+(* al = composite fields selected through an alias.                              *)
 (* dup[x] = -1 no copy | 0 a non-deferred copy of x next to the fragments |      *)
 (*          j a second copy inside fragment j (overlapping fields).              *)
 (***************************************************************************)
@@ -23,7 +24,9 @@ EXTENDS Integers, Sequences, FiniteSets, TLC, Json
 
 CONSTANTS MaxF,     \* max number of fragments
           MaxActs,  \* max number of decoration actions
-          MaxSub    \* max size of the field subset wrapped by one fragment
+          MaxSub,   \* max size of the field subset wrapped by one fragment
+          Menus,    \* which base queries of the menu are decorated
+          Pin       \* TRUE: the focused family (see PinNext): only shapes with SharedNested are printed
 
 N(p, f, tc, ty) == [p |-> p, f |-> f, tc |-> tc, ty |-> ty]
 
@@ -57,11 +60,19 @@ Menu == <<
   [root |-> "Query", nulls |-> <<"me", "cat">>, nodes |-> <<
      N(0, "me", "", "User"), N(1, "id", "", ""), N(1, "username", "", ""),
      N(0, "topProducts", "", "Product"), N(4, "name", "", ""), N(4, "price", "", ""),
-     N(0, "cat", "", "Cat"), N(7, "name", "", "")>>]
+     N(0, "cat", "", "Cat"), N(7, "name", "", "")>>],
+  \* M6  small chain used by the focused (Pin) family: object -> list -> entity
+  [root |-> "Query", nulls |-> <<"me">>, nodes |-> <<
+     N(0, "me", "", "User"), N(1, "id", "", ""), N(1, "reviews", "", "Review"), N(3, "body", "", ""),
+     N(3, "product", "", "Product"), N(5, "upc", "", "")>>],
+  \* M7  same for a root list: list -> entity list -> entity
+  [root |-> "Query", nulls |-> <<"topProducts">>, nodes |-> <<
+     N(0, "topProducts", "", "Product"), N(1, "upc", "", ""), N(1, "reviews", "", "Review"), N(3, "body", "", ""),
+     N(3, "author", "", "User"), N(5, "username", "", "")>>]
 >>
 
-VARIABLES m, frags, in, dup, nul, acts
-gvars == <<m, frags, in, dup, nul, acts>>
+VARIABLES m, frags, in, dup, nul, al, acts
+gvars == <<m, frags, in, dup, nul, al, acts>>
 
 Nodes == Menu[m].nodes
 NodeIds == DOMAIN Nodes
@@ -69,12 +80,15 @@ Kids(h) == {x \in NodeIds : Nodes[x].p = h}
 Hosts == {0} \cup {x \in NodeIds : Nodes[x].ty # ""}
 NF == Len(frags)
 
+\* al = set of composite fields selected through an alias (a<x>: field).  At most one alias is chosen at Init, so
+\* that the exhaustive single-action family covers every (decoration, aliased ancestor) pair; AddAlias adds more.
 GenInit ==
-  /\ m \in DOMAIN Menu
+  /\ m \in Menus
   /\ frags = <<>>
   /\ in = [x \in DOMAIN Menu[m].nodes |-> 0]
   /\ dup = [x \in DOMAIN Menu[m].nodes |-> -1]
-  /\ nul \in {0} \cup DOMAIN Menu[m].nulls
+  /\ nul \in IF Pin THEN {0} ELSE {0} \cup DOMAIN Menu[m].nulls
+  /\ al \in IF Pin THEN {{}} ELSE {{}} \cup {{x} : x \in {y \in DOMAIN Menu[m].nodes : Menu[m].nodes[y].ty # ""}}
   /\ acts = <<>>
 
 SameTc(S) == \A x, y \in S : Nodes[x].tc = Nodes[y].tc
@@ -90,7 +104,7 @@ Wrap(kind, name) ==
     /\ frags' = Append(frags, NewFrag(h, 0, kind, typed \/ kind = "spread", TcOf(S)))
     /\ in' = [x \in NodeIds |-> IF x \in S THEN NF + 1 ELSE in[x]]
     /\ acts' = Append(acts, IF \E j \in DOMAIN frags : frags[j].host = h THEN "SiblingDefer" ELSE name)
-    /\ UNCHANGED <<m, dup, nul>>
+    /\ UNCHANGED <<m, dup, nul, al>>
 DeferInline == Wrap("inline", "DeferInline")
 DeferSpread == Wrap("spread", "DeferSpread")
 
@@ -101,21 +115,21 @@ NestDefer ==
     /\ frags' = Append(frags, NewFrag(frags[f].host, f, kind, kind = "spread", frags[f].tc))
     /\ in' = [x \in NodeIds |-> IF x \in S THEN NF + 1 ELSE in[x]]
     /\ acts' = Append(acts, "NestDefer")
-    /\ UNCHANGED <<m, dup, nul>>
+    /\ UNCHANGED <<m, dup, nul, al>>
 
 SetMode ==
   \E f \in DOMAIN frags : \E md \in {"ifFalse", "varTrue", "varFalse"} :
     /\ frags[f].mode = "on"
     /\ frags' = [frags EXCEPT ![f].mode = md]
     /\ acts' = Append(acts, IF md = "ifFalse" THEN "DeferIfFalse" ELSE "DeferIfVar")
-    /\ UNCHANGED <<m, in, dup, nul>>
+    /\ UNCHANGED <<m, in, dup, nul, al>>
 
 Label ==
   \E f \in DOMAIN frags :
     /\ ~frags[f].label
     /\ frags' = [frags EXCEPT ![f].label = TRUE]
     /\ acts' = Append(acts, "Label")
-    /\ UNCHANGED <<m, in, dup, nul>>
+    /\ UNCHANGED <<m, in, dup, nul, al>>
 
 \* leaf children that can be copied along with a composite field
 LeafKids(x) == {y \in Kids(x) : Nodes[y].ty = "" /\ Nodes[y].tc = ""}
@@ -129,15 +143,52 @@ Overlap ==
     /\ j # 0 => frags[j].host = Nodes[x].p /\ frags[j].tc = Nodes[x].tc
     /\ dup' = [dup EXCEPT ![x] = j]
     /\ acts' = Append(acts, IF j = 0 THEN "OverlapPlain" ELSE "OverlapDeferred")
-    /\ UNCHANGED <<m, frags, in, nul>>
+    /\ UNCHANGED <<m, frags, in, nul, al>>
 
-GenNext == Len(acts) < MaxActs /\ (DeferInline \/ DeferSpread \/ NestDefer \/ SetMode \/ Label \/ Overlap)
+\* alias a composite field on the path from the root to a fragment (list fields and their ancestors in particular)
+RECURSIVE IsAnc(_, _)
+IsAnc(a, x) == x # 0 /\ (a = x \/ IsAnc(a, Nodes[x].p))
+AddAlias ==
+  \E x \in NodeIds :
+    /\ Nodes[x].ty # "" /\ x \notin al
+    /\ \E f \in DOMAIN frags : IsAnc(x, frags[f].host)
+    /\ al' = al \cup {x}
+    /\ acts' = Append(acts, "AddAlias")
+    /\ UNCHANGED <<m, frags, in, dup, nul>>
+
+(* Focused family (Pin): untyped inline fragments created host by host plus copies of a composite field in a    *)
+(* sibling fragment.  Printed shape SharedNested: two sibling fragments select the SAME object field (the field  *)
+(* merges into the first) and a further fragment is nested inside that object - with an enclosing fragment above *)
+(* it this is the 3+ level nesting in which a merged-away defer leaves a stale parent id behind.                  *)
+PinWrap ==
+  \E h \in Hosts : \E S \in Sub({x \in Kids(h) : in[x] = 0}) :
+    /\ NF < MaxF
+    /\ NF > 0 => frags[NF].host <= h
+    /\ frags' = Append(frags, NewFrag(h, 0, "inline", FALSE, TcOf(S)))
+    /\ in' = [x \in NodeIds |-> IF x \in S THEN NF + 1 ELSE in[x]]
+    /\ acts' = Append(acts, IF \E j \in DOMAIN frags : frags[j].host = h THEN "SiblingDefer" ELSE "DeferInline")
+    /\ UNCHANGED <<m, dup, nul, al>>
+PinOverlap ==
+  \E x \in NodeIds : \E j \in DOMAIN frags :
+    /\ in[x] # 0 /\ dup[x] = -1 /\ Nodes[x].ty # "" /\ LeafKids(x) # {}
+    /\ j # in[x] /\ frags[j].host = Nodes[x].p /\ frags[j].tc = Nodes[x].tc
+    /\ dup' = [dup EXCEPT ![x] = j]
+    /\ acts' = Append(acts, "OverlapDeferred")
+    /\ UNCHANGED <<m, frags, in, nul, al>>
+SharedNested == \E x \in NodeIds : dup[x] > 0 /\ in[x] # 0 /\ (\E f \in DOMAIN frags : frags[f].host = x)
+
+GenNext == Len(acts) < MaxActs /\
+           IF Pin THEN PinWrap \/ PinOverlap
+           ELSE DeferInline \/ DeferSpread \/ NestDefer \/ SetMode \/ Label \/ Overlap \/ AddAlias
 GenSpec == GenInit /\ [][GenNext]_gvars
 
+RECURSIVE SetSeq(_)
+SetSeq(S) == IF S = {} THEN <<>> ELSE LET x == CHOOSE y \in S : \A z \in S : y <= z IN <<x>> \o SetSeq(S \ {x})
+
 Emit ==
-  IF frags # <<>>
+  IF frags # <<>> /\ (Pin => SharedNested)
   THEN PrintT(ToJson([m |-> m, root |-> Menu[m].root, nodes |-> Nodes, frags |-> frags, in |-> in, dup |-> dup,
-                      nul |-> IF nul = 0 THEN "" ELSE Menu[m].nulls[nul], acts |-> acts]))
+                      nul |-> IF nul = 0 THEN "" ELSE Menu[m].nulls[nul], al |-> SetSeq(al), acts |-> acts]))
   ELSE TRUE
 GenConstraint == Emit
 =============================================================================
